@@ -392,6 +392,9 @@ func (mem *Mempool) RemoveTxsOfBlock(block *types.Block) bool {
 	return true
 }
 func (mem *Mempool) getCacheFeeRate() int64 {
+	// 只在本函数内持有读锁, 调用方不能持有proxyMtx
+	mem.proxyMtx.RLock()
+	defer mem.proxyMtx.RUnlock()
 	if mem.cache.qcache == nil {
 		return 0
 	}
@@ -418,7 +421,11 @@ func (mem *Mempool) GetProperFeeRate(req *types.ReqProperFee) int64 {
 	}
 	feeRate := mem.getCacheFeeRate()
 	if mem.cfg.IsLevelFee {
-		levelFeeRate := mem.getLevelFeeRate(mem.cfg.MinTxFeeRate, req.TxCount, req.TxSize)
+		// MinTxFeeRate 可被SetMinFee修改, 加读锁取值, getLevelFeeRate内部会自行加锁, 此处不能跨调用持锁
+		mem.proxyMtx.RLock()
+		minTxFeeRate := mem.cfg.MinTxFeeRate
+		mem.proxyMtx.RUnlock()
+		levelFeeRate := mem.getLevelFeeRate(minTxFeeRate, req.TxCount, req.TxSize)
 		if levelFeeRate > feeRate {
 			feeRate = levelFeeRate
 		}
@@ -472,7 +479,11 @@ func (mem *Mempool) delBlock(block *types.Block) {
 		if err != nil {
 			continue
 		}
-		if !mem.checkExpireValid(tx) {
+		// checkExpireValid 读取mem.header, 需要持有锁; PushTx自行加锁, 不能跨调用持锁
+		mem.proxyMtx.Lock()
+		valid := mem.checkExpireValid(tx)
+		mem.proxyMtx.Unlock()
+		if !valid {
 			continue
 		}
 
